@@ -84,8 +84,14 @@ theorem codeVars_cgE (mod : String) (ρ φ : String → Option String) : ∀ (n 
     · intro e lm hd m hm
       cases e
       case int | bool | str | null | none | float | range | anyobj | lambda | assign
-          | cast | blockE | tryE =>
+          | blockE | tryE =>
         simp [cgE, codeVars, var?] at hm
+      case cast sp ty e =>
+        simp only [cgE, codeVars_append, List.mem_append] at hm
+        rcases hm with hm | hm
+        · obtain ⟨x, hx, h⟩ := ihE e lm (by simp only [Frag.depthGE] at hd; omega) m hm
+          exact ⟨x, by simpa [Frag.varsGE] using hx, h⟩
+        · simp [codeVars, var?] at hm
       case obj sp ty fs =>
         simp only [cgE, codeVars_append, List.mem_append] at hm
         rcases hm with hm | hm
